@@ -8,6 +8,8 @@ import re
 
 
 def same(a, b, _d=0):  # noqa: C901
+    if a is b:
+        return True
     if type(a) is not type(b):
         return False
     if _d > 500:
